@@ -74,6 +74,27 @@ Definition decode_header (h : bytes) : bytes * bytes + err :=
 (* commonHeader.Set(key, val) *)
 Definition header_set (k v : bytes) (h : headers) : headers := hset (canon_key k) v h.
 
+(* ---------- make([]byte, size) + io.ReadFull ----------
+   Every allocation whose size was read from the input is an explicit effect: [AOk]/[AShort]
+   carry the number of bytes allocated. runtime.makeslice panics for a negative length and
+   for a length above maxAlloc (2^48 on linux/amd64); anything else is really allocated. *)
+Inductive ares :=
+| AOk (buf rest : bytes) (alloc : N)
+| AShort (alloc : N)             (* io.ReadFull: EOF / unexpected EOF *)
+| AErr (e : err)
+| APanic.
+
+Definition max_alloc : Z := 281474976710656.
+
+Definition alloc_read (size : Z) (rest : bytes) : ares :=
+  if (Z.ltb size 0 || Z.ltb max_alloc size)%bool then APanic
+  else
+    let n := Z.to_N size in
+    match read_full n rest with
+    | Some (b, r) => AOk b r n
+    | None => AShort n
+    end.
+
 (* ---------- rendering of lines ---------- *)
 Definition header_text (kl k kt vl v vt : bytes) : bytes :=
   LBR :: (kl ++ k ++ kt) ++ COLON :: (vl ++ v ++ vt) ++ [RBR].
